@@ -186,9 +186,16 @@ impl WaitCondvar<bool> {
 		let mut work = self.work.lock();
 		*work = true;
 		self.cv.notify_one();
+		#[cfg(parity_db_verif)]
+		{
+			drop(work);
+			crate::verif::yield_point(crate::verif::SITE_AFTER_SIGNAL);
+		}
 	}
 
 	pub fn wait(&self) {
+		#[cfg(parity_db_verif)]
+		crate::verif::yield_point(crate::verif::SITE_BEFORE_WAIT);
 		let mut work = self.work.lock();
 		while !*work {
 			self.cv.wait(&mut work)
@@ -631,6 +638,8 @@ impl DbInner {
 	}
 
 	fn commit_raw(&self, commit: CommitChangeSet) -> Result<()> {
+		#[cfg(parity_db_verif)]
+		crate::verif::yield_point(crate::verif::SITE_COMMIT_ENTER);
 		let mut queue = self.commit_queue.lock();
 
 		#[cfg(any(test, feature = "instrumentation"))]
@@ -684,6 +693,12 @@ impl DbInner {
 		queue.commits.push_back(commit);
 		queue.bytes += bytes;
 		self.log_worker_wait.signal();
+		#[cfg(parity_db_verif)]
+		{
+			drop(overlay);
+			drop(queue);
+			crate::verif::yield_point(crate::verif::SITE_COMMIT_QUEUED);
+		}
 		Ok(())
 	}
 
@@ -843,7 +858,11 @@ impl DbInner {
 						// Nothing else in the queue so can reuse same id
 						Some(commit.id)
 					};
+					#[cfg(parity_db_verif)]
+					crate::verif::yield_point(crate::verif::SITE_BEFORE_DEFER);
 					self.defer_commit(queue, commit.changeset, commit.bytes, commit.id, new_id)?;
+					#[cfg(parity_db_verif)]
+					crate::verif::yield_point(crate::verif::SITE_AFTER_DEFER);
 
 					return Ok(true)
 				} else {
@@ -906,6 +925,8 @@ impl DbInner {
 			let record_id = writer.record_id();
 			let l = writer.drain();
 
+			#[cfg(parity_db_verif)]
+			crate::verif::yield_point(crate::verif::SITE_BEFORE_END_RECORD);
 			let bytes = {
 				let bytes = self.log.end_record(l)?;
 				let mut logged_bytes = self.log_queue_wait.work.lock();
@@ -913,6 +934,8 @@ impl DbInner {
 				self.flush_worker_wait.signal();
 				bytes
 			};
+			#[cfg(parity_db_verif)]
+			crate::verif::yield_point(crate::verif::SITE_AFTER_END_RECORD);
 
 			{
 				// Cleanup the commit overlay.
@@ -924,6 +947,8 @@ impl DbInner {
 					iterset.clean_overlay(&mut overlay[*c as usize].btree_indexed, commit.id);
 				}
 			}
+			#[cfg(parity_db_verif)]
+			crate::verif::yield_point(crate::verif::SITE_AFTER_OVERLAY_CLEAN);
 
 			if reindex {
 				self.start_reindex(record_id);
@@ -988,6 +1013,8 @@ impl DbInner {
 				}
 				let record_id = writer.record_id();
 				let l = writer.drain();
+				#[cfg(parity_db_verif)]
+				crate::verif::yield_point(crate::verif::SITE_REINDEX_RECORD);
 
 				let mut logged_bytes = self.log_queue_wait.work.lock();
 				let bytes = self.log.end_record(l)?;
@@ -1156,6 +1183,8 @@ impl DbInner {
 					reader.next()?;
 				}
 				loop {
+					#[cfg(parity_db_verif)]
+					crate::verif::yield_point(crate::verif::SITE_ENACT_ACTION);
 					match reader.next()? {
 						LogAction::BeginRecord =>
 							return Err(Error::Corruption("Bad log record".into())),
@@ -1222,7 +1251,11 @@ impl DbInner {
 		};
 
 		if let Some((record_id, cleared, bytes)) = cleared {
+			#[cfg(parity_db_verif)]
+			crate::verif::yield_point(crate::verif::SITE_BEFORE_END_READ);
 			self.log.end_read(cleared, record_id);
+			#[cfg(parity_db_verif)]
+			crate::verif::yield_point(crate::verif::SITE_AFTER_END_READ);
 			{
 				if !validation_mode {
 					let mut queue = self.log_queue_wait.work.lock();
@@ -1277,6 +1310,8 @@ impl DbInner {
 					c.flush()?;
 				}
 			}
+			#[cfg(parity_db_verif)]
+			crate::verif::yield_point(crate::verif::SITE_BEFORE_CLEAN);
 			self.log.clean_logs(num_cleanup - keep_logs)?
 		} else {
 			false
@@ -1785,6 +1820,97 @@ impl Db {
 impl Drop for Db {
 	fn drop(&mut self) {
 		self.drop_inner()
+	}
+}
+
+/// Read-only snapshot of the write pipeline, for verification harnesses.
+#[cfg(parity_db_verif)]
+#[derive(Debug, Clone, Default)]
+pub struct VerifStatus {
+	pub queued_commits: usize,
+	pub queued_bytes: usize,
+	pub last_commit_id: u64,
+	pub log_queue_bytes: i64,
+	pub last_enacted: u64,
+	pub next_reindex: u64,
+	pub next_record_id: u64,
+	pub appending: Option<(u32, u64)>,
+	pub read_queue_len: usize,
+	pub reading: Option<u32>,
+	pub dirty_logs: usize,
+	pub log_pool_len: usize,
+	pub overlay_index_entries: usize,
+	pub overlay_value_entries: usize,
+	pub overlay_ref_count_entries: usize,
+	pub commit_overlay_entries: usize,
+	pub has_bg_err: bool,
+	pub shutdown: bool,
+	pub columns: Vec<VerifColumnStatus>,
+}
+
+#[cfg(parity_db_verif)]
+#[derive(Debug, Clone, Default)]
+pub struct VerifColumnStatus {
+	pub index_bits: Option<u8>,
+	pub reindex_index_bits: Vec<u8>,
+	pub reindex_ref_count_bits: Vec<u8>,
+	pub reindex_progress: u64,
+	pub ref_count_bits: Option<u8>,
+}
+
+#[cfg(parity_db_verif)]
+impl Db {
+	/// Snapshot of pipeline counters. Takes each lock briefly, one at a time.
+	pub fn verif_status(&self) -> VerifStatus {
+		let inner = &self.inner;
+		let (queued_commits, queued_bytes, last_commit_id) = {
+			let q = inner.commit_queue.lock();
+			(q.commits.len(), q.bytes, q.record_id)
+		};
+		let log_queue_bytes = *inner.log_queue_wait.work.lock();
+		let commit_overlay_entries = {
+			let o = inner.commit_overlay.read();
+			o.iter().map(|c| c.indexed.len() + c.address.len() + c.btree_indexed.len()).sum()
+		};
+		let l = inner.log.verif_status();
+		VerifStatus {
+			queued_commits,
+			queued_bytes,
+			last_commit_id,
+			log_queue_bytes,
+			last_enacted: inner.last_enacted.load(Ordering::SeqCst),
+			next_reindex: inner.next_reindex.load(Ordering::SeqCst),
+			next_record_id: l.0,
+			appending: l.1,
+			read_queue_len: l.2,
+			reading: l.3,
+			dirty_logs: l.4,
+			log_pool_len: l.5,
+			overlay_index_entries: l.6,
+			overlay_value_entries: l.7,
+			overlay_ref_count_entries: l.8,
+			commit_overlay_entries,
+			has_bg_err: inner.bg_err.lock().is_some(),
+			shutdown: inner.shutdown.load(Ordering::SeqCst),
+			columns: inner
+				.columns
+				.iter()
+				.map(|c| match c {
+					Column::Hash(h) => h.verif_status(),
+					Column::Tree(_) => VerifColumnStatus::default(),
+				})
+				.collect(),
+		}
+	}
+
+	/// Enact a single log record (the stepping API `enact_logs` enacts all of them).
+	pub fn verif_enact_one(&self) -> Result<bool> {
+		self.inner.enact_logs(false)
+	}
+
+	/// Report a step error the way the background worker wrappers do.
+	pub fn verif_store_err(&self, e: Error) {
+		self.inner.store_err(Err(e))
 	}
 }
 
